@@ -11,6 +11,8 @@ mod c07;
 mod gen_schema;
 mod sx_schema;
 mod c11;
+mod gen_schema_text;
+mod c09;
 
 use out::Out;
 
@@ -54,6 +56,7 @@ fn main() {
                 "c02" => c02::run(&args, &mut out),
                 "c07" => c07::run(&args, &mut out),
                 "c11" => c11::run(&args, &mut out),
+                "c09" => c09::run(&args, &mut out),
                 s => { eprintln!("unknown stream {s}"); std::process::exit(2); }
             }
             out.write(&args.out);
